@@ -124,8 +124,11 @@ pub fn crash<const N: usize>(mid_finalize: bool, with_shx: bool, max_ops: u32) {
             with_index(&shp, &shx, 50, &written);
         } else if hl == 58 {
             with_index(&shp, &shx, 58, &written);
+        } else if mid_finalize && hl == 54 {
+            // the intermediate finalize committed one entry
+            with_index(&shp, &shx, 54, &written);
         } else {
-            assert!(false, "torn .shx header length is neither the placeholder nor the final value");
+            assert!(false, "torn .shx header length is none of the values the writer ever stores there");
         }
         idx_witness = hl == 50 && shx.plen > 100;
     }
